@@ -958,8 +958,14 @@ class ParquetDataTableAccessor(
         """Returns the dictionary with field name and numpy dtype instance for
         each field.
         """
+        # Determine the numpy dtype through pyarrow itself. The
+        # ``to_pandas_dtype`` method requires the pandas package and returns
+        # scalar type classes instead of numpy.dtype instances.
+        pa = tool.get('pyarrow')
         fname_to_dtype_dict = dict([
-            (fname, data.field(fname).type.to_pandas_dtype())
+            (fname,
+             pa.array([], type=data.field(fname).type).to_numpy(
+                 zero_copy_only=False).dtype)
             for fname in data.column_names
         ])
         return fname_to_dtype_dict
